@@ -18,7 +18,7 @@ EXPLANATION = (
     "the cap by the very Irr that is returned. C13.c (index spaces): Schedule is built on ClockStruct.time_span and read "
     "at the time-step counter; SMT is read at int(growth_stage)-1 and growth_stage is set to 1 on the first day of a "
     "season before it is used. C13.d: each strategy's parameter is read only inside that strategy's branch. C13.e: the daily schedule is aligned with the simulation days by label; a day offset used as an array position "
-    "must be checked against 0 and the length (negative offsets wrap). C13.f: the interval day test is (dap - 1) % interval == 0 (normal form). C13.g: the net-irrigation refill uses each layer's own threshold (= C04.e). C13.h: the growth-stage lengths of compute_crop_calendar are derived by the same expressions in the calendar-day and the degree-day branch (modulo the CD suffix) and the degree-day branch reads no calendar-day parameter - the end of stage 1 selects the threshold of the soil-moisture strategy. C13.i: the daily schedule array is built from the schedule's Depth column by name (or zeros). NOT decided: "
+    "must be checked against 0 and the length (negative offsets wrap). C13.f: the interval day test is (dap - 1) % interval == 0 (normal form). C13.g: the net-irrigation refill uses each layer's own threshold (= C04.e). C13.h: the growth-stage lengths of compute_crop_calendar are derived by the same expressions in the calendar-day and the degree-day branch (modulo the CD suffix) and the degree-day branch reads no calendar-day parameter - the end of stage 1 selects the threshold of the soil-moisture strategy. C13.i: the daily schedule array is built from the schedule's Depth column by name (or zeros). C13.j (= C07.l; what 'in season' means for C13.a): the step sets growing_season = True only under planting date reached, harvest date not reached, crop not mature and crop not dead (control dependences, tests on locals expanded) - a season that goes on after the crop has died keeps irrigating a field whose harvest is already reported. NOT decided: "
     "the ((dap-1) % k), the threshold comparison and the refill amount (numeric).")
 
 
@@ -240,6 +240,9 @@ def rule_h(chk, prog):
 
 
 def run(chk, prog, tier):
+    # ------------------------------------------------------------ C13.j (what "growing season" means for C13.a: shared with C07.l)
+    from .c07 import season_flag_guards
+    season_flag_guards(chk, prog, "C13.j")
     # ------------------------------------------------------------ C13.a
     configs = [{}, {"IrrMngt.irrigation_method": 0}, {"IrrMngt.irrigation_method": 4}]
     irr_name, irrday_name = step_local(prog, "irr"), step_local(prog, "irr_day")
